@@ -229,6 +229,28 @@ func GenHistoryOpt(r *Rng, ver string, size int, oddKeys bool) *History {
 					mc["Membership"] = other
 				}
 			}
+			if r.Chance(15) {
+				// members the content struct does not (yet) know, of any type, and known ones of the wrong type: what makes a
+				// kick / ban a control event is the strict decoding of the content AS THE STRUCT IS NOW (seeded change C10-r7m1)
+				switch r.Intn(8) {
+				case 0:
+					mc["redact_events"] = "true"
+				case 1:
+					mc["redact_events"] = 1
+				case 2:
+					mc["org.matrix.msc4293.redact_events"] = "yes"
+				case 3:
+					mc["reason"] = 5
+				case 4:
+					mc["is_direct"] = "yes"
+				case 5:
+					mc["displayname"] = map[string]interface{}{"a": 1}
+				case 6:
+					mc["x.custom"] = []interface{}{1, "two"}
+				default:
+					mc["knock_restricted"] = true
+				}
+			}
 			h.Send(r, b, spec.MRoomMember, sender, sp(target), mc, nextTS())
 		case 5, 6: // power levels
 			cur := map[string]interface{}{}
